@@ -53,6 +53,10 @@ class StackFrameBase(Generic[_T]):
             return ComputationResult(result.value)
         except AS.UnsuspectedHangeulError as err:
             return ComputationResult(err)
+        except RecursionError:
+            # Deeply nested data or binds exhaust the host stack inside the
+            # built-ins; report it like any other stack exhaustion.
+            raise RuntimeError("Maximum Stack Size Exceeded.") from None
 
 
 class StackFrame(StackFrameBase[AS.Value]):
